@@ -161,14 +161,14 @@ func (d *Downstream) ReadDataPoints(ctx context.Context) (*DownstreamChunk, erro
 	case <-ctx.Done():
 		return nil, ctx.Err()
 	case dps := <-d.dataPointsCh:
-		d.processUpstreamAlias(dps.UpstreamOrAlias)
-		d.processDataPoints(dps.StreamChunk.DataPointGroups)
-
+		// resolve against the aliases announced so far, before this chunk's full forms get theirs
 		ps, err := d.wireToDownstreamChunk(dps)
 		if err != nil {
 			d.logger.Errorf(d.ctx, "protocol error: %+v", err)
 			return nil, err
 		}
+		d.processUpstreamAlias(dps.UpstreamOrAlias)
+		d.processDataPoints(dps.StreamChunk.DataPointGroups)
 		d.pushResultAckBuffer(&message.DownstreamChunkResult{
 			ResultCode:               message.ResultCodeSucceeded,
 			ResultString:             "OK",
